@@ -323,11 +323,7 @@ def tr_inner(fn: ast.FunctionDef):
     blk = [s for s in top.body if not isinstance(s, ast.Assert)]
     if len(blk) != 1 or not isinstance(blk[0], ast.If):
         raise _err(top, 'block branch is not a single if/else on the root test')
-    rt = blk[0].test
-    if not (isinstance(rt, ast.Compare) and is_self_attr(rt.left, '_real_name') and len(rt.ops) == 1
-            and isinstance(rt.ops[0], ast.Is) and isinstance(rt.comparators[0], ast.Constant)
-            and rt.comparators[0].value is None):
-        raise _err(blk[0], 'root test is not `self._real_name is None`')
+    root_test = classify_root_test(blk[0].test, self_name)
     rpre, rloop, rpost = seq(blk[0].body, True)
     if rpre or rpost or rloop is None:
         raise _err(blk[0], 'root branch writes text of its own or has no child loop')
@@ -335,7 +331,23 @@ def tr_inner(fn: ast.FunctionDef):
     if child is None:
         raise _err(blk[0], 'named-block branch has no child loop')
     lpre, lloop, lpost = seq(top.orelse, False)
-    return dict(head=head, child_indent=child, tail=tail, leaf=lpre + lpost, root_indent=rloop), self_name
+    return dict(head=head, child_indent=child, tail=tail, leaf=lpre + lpost, root_indent=rloop,
+                root_test=root_test), self_name
+
+
+def classify_root_test(t: ast.AST, self_name: str) -> str:
+    """The test that sends a list-valued node to the 'root' branch (children only, no header, no braces).
+    `self._real_name is None` -> RTIsNone; a truth test `not self._real_name` -> RTFalsy (also true of the name '');
+    anything else -> RTOther (the obligation root_test_is_None_identity fails, the translator does not)."""
+    def is_name_attr(n):
+        return isinstance(n, ast.Attribute) and n.attr in ('_real_name', 'real_name', 'name') \
+            and _is_name(n.value, self_name)
+    if isinstance(t, ast.Compare) and is_name_attr(t.left) and len(t.ops) == 1 and isinstance(t.ops[0], ast.Is) \
+            and isinstance(t.comparators[0], ast.Constant) and t.comparators[0].value is None:
+        return 'RTIsNone'
+    if isinstance(t, ast.UnaryOp) and isinstance(t.op, ast.Not) and is_name_attr(t.operand):
+        return 'RTFalsy'
+    return 'RTOther'
 
 
 def tr_export(fn: ast.FunctionDef):
@@ -350,6 +362,103 @@ def tr_export(fn: ast.FunctionDef):
                 raise _err(n, 'export() yields something that is not a string literal/f-string')
     ys.sort(key=lambda t: t[0])
     return ys, self_name
+
+
+def tr_parse(fn: ast.FunctionDef) -> dict:
+    """Decisive sites of Keyvalues.parse:
+      * the options handed to Tokenizer(...) (the lexer model hard-codes string_bracket=True and takes
+        allow_escapes from the caller; anything else fails closed);
+      * the tests guarding the two 'Illegal newline' errors: `not newline_keys and (<test>)`, `not newline_values
+        and (<test>)`, with <test> a disjunction of `'<char>' in <name>` -> the list of characters, else BTOther;
+      * the two flag-replacement tests `can_flag_replace and ... cur_block_contents[-1] ...`: whether the list is
+        tested for emptiness before it is indexed."""
+    out: dict = {}
+    # --- Tokenizer(...) construction
+    calls = [n for n in ast.walk(fn) if isinstance(n, ast.Call) and _is_name(n.func, 'Tokenizer')]
+    if len(calls) != 1:
+        raise _err(fn, f'expected one Tokenizer(...) construction in parse, found {len(calls)}')
+    kws = {}
+    for k in calls[0].keywords:
+        if k.arg is None:
+            raise _err(calls[0], 'Tokenizer(**kwargs) in parse')
+        kws[k.arg] = k.value
+    if len(calls[0].args) != 3:
+        raise _err(calls[0], 'Tokenizer(file_contents, filename, KeyValError, ...) expected')
+    if set(kws) != {'string_bracket', 'allow_escapes'}:
+        raise _err(calls[0], f'Tokenizer options in parse are {sorted(kws)}, the lexer model assumes '
+                             'string_bracket=True, allow_escapes=allow_escapes and defaults otherwise')
+    sb = kws['string_bracket']
+    if not (isinstance(sb, ast.Constant) and sb.value is True):
+        raise _err(calls[0], 'string_bracket is not True')
+    if not _is_name(kws['allow_escapes'], 'allow_escapes'):
+        raise _err(calls[0], 'allow_escapes is not passed through')
+
+    # --- newline tests
+    def brk(opt: str):
+        ifs = [n for n in ast.walk(fn) if isinstance(n, ast.If)
+               and any(_is_name(x, opt) for x in ast.walk(n.test))]
+        if len(ifs) != 1:
+            raise _err(fn, f'expected exactly one test of {opt} in parse, found {len(ifs)}')
+        node = ifs[0]
+        if not (len(node.body) == 1 and isinstance(node.body[0], ast.Raise) and not node.orelse):
+            raise _err(node, f'the test of {opt} does not guard a single raise')
+        t = node.test
+        if not (isinstance(t, ast.BoolOp) and isinstance(t.op, ast.And) and len(t.values) == 2
+                and isinstance(t.values[0], ast.UnaryOp) and isinstance(t.values[0].op, ast.Not)
+                and _is_name(t.values[0].operand, opt)):
+            raise _err(node, f'test is not `not {opt} and (...)`')
+        inner = t.values[1]
+        parts = inner.values if isinstance(inner, ast.BoolOp) and isinstance(inner.op, ast.Or) else [inner]
+        chars, names = [], set()
+        for c in parts:
+            if isinstance(c, ast.Compare) and len(c.ops) == 1 and isinstance(c.ops[0], ast.In) \
+                    and isinstance(c.left, ast.Constant) and isinstance(c.left.value, str) and len(c.left.value) == 1 \
+                    and isinstance(c.comparators[0], ast.Name):
+                chars.append(c.left.value)
+                names.add(c.comparators[0].id)
+            else:
+                return None, node.lineno, None
+        if len(names) != 1:
+            return None, node.lineno, None
+        return chars, node.lineno, names.pop()
+    kch, kline, kname = brk('newline_keys')
+    vch, vline, vname = brk('newline_values')
+    # the key test must look at the token value of the main loop, the value test at the value token
+    loops = [n for n in ast.walk(fn) if isinstance(n, ast.For) and _is_name(n.iter, 'tokenizer')]
+    if len(loops) != 1 or not (isinstance(loops[0].target, ast.Tuple) and len(loops[0].target.elts) == 2
+                               and all(isinstance(e, ast.Name) for e in loops[0].target.elts)):
+        raise _err(fn, 'main loop `for token_type, token_value in tokenizer` not recognised')
+    tok_val = loops[0].target.elts[1].id
+    if kname is not None and kname != tok_val:
+        raise _err(fn, f'the newline_keys test looks at {kname}, not at the key token {tok_val}')
+    if vname is not None and vname == tok_val:
+        raise _err(fn, f'the newline_values test looks at the key token {tok_val}')
+    out['key_break'] = kch
+    out['value_break'] = vch
+    out['break_lines'] = [kline, vline]
+
+    # --- flag replacement tests
+    reps = [n for n in ast.walk(fn) if isinstance(n, ast.If) and isinstance(n.test, ast.BoolOp)
+            and isinstance(n.test.op, ast.And) and n.test.values and _is_name(n.test.values[0], 'can_flag_replace')]
+    if len(reps) != 2:
+        raise _err(fn, f'expected two `can_flag_replace and ...` tests, found {len(reps)}')
+    guards = []
+    for n in reps:
+        guarded = False
+        for v in n.test.values[1:]:
+            if _is_name(v, 'cur_block_contents'):
+                guarded = True
+                break
+            if any(isinstance(x, ast.Subscript) and _is_name(x.value, 'cur_block_contents') for x in ast.walk(v)):
+                break
+        guards.append(guarded)
+    out['replace_guards'] = guards
+    out['replace_lines'] = [n.lineno for n in reps]
+    return out
+
+
+def coq_brk(chars) -> str:
+    return 'BTOther' if chars is None else f'BTChars {coq_chars("".join(chars))}'
 
 
 def tr_escapes() -> dict:
@@ -431,6 +540,7 @@ def translate() -> tuple[str, dict]:
     braces, s1 = tr_serialise(f_ser, f_in)
     inner, s2 = tr_inner(f_in)
     yields, s3 = tr_export(f_exp)
+    psites = tr_parse(f_parse)
     stores, muts, info = [], [], []
     for fn, sn in ((f_ser, s1), (f_in, s2), (f_exp, s3)):
         a, b, c = census(fn, sn)
@@ -445,6 +555,7 @@ def translate() -> tuple[str, dict]:
          '  e_table := [' + '; '.join(f'({ord(k)}, {ord(v)})' for k, v in esc['table']) + '];',
          '  e_excl := ' + coq_chars(esc['excl']) + ' |}.', '',
          'Definition gen_sercfg : sercfg := {|',
+         f'  t_root_test := {inner["root_test"]};',
          f'  t_open_ind := {coq_pieces(braces["open_ind"])};',
          f'  t_close_ind := {coq_pieces(braces["close_ind"])};',
          f'  t_open_plain := {coq_pieces(braces["open_plain"])};',
@@ -454,12 +565,19 @@ def translate() -> tuple[str, dict]:
          f'  t_tail := {coq_pieces(inner["tail"])};',
          f'  t_leaf := {coq_pieces(inner["leaf"])};',
          f'  t_root_indent := {coq_pieces(inner["root_indent"])} |}}.', '',
+         '(* decisive sites of Keyvalues.parse *)',
+         'Definition gen_parsecfg : parsecfg := {|',
+         f'  p_key_break := {coq_brk(psites["key_break"])};',
+         f'  p_value_break := {coq_brk(psites["value_break"])};',
+         f'  p_replace_guard := {"true" if all(psites["replace_guards"]) else "false"} |}}.', '',
          '(* f-strings yielded by the deprecated Keyvalues.export() *)',
          'Definition gen_export_yields : list (list piece) := [' + '; '.join(coq_pieces(p) for _, p in yields) + '].', '',
          '(* line numbers of stores to / mutating calls on tree objects inside serialise, _serialise, export *)',
          'Definition gen_tree_stores : list N := ' + coq_chars(''.join(chr(x) for x in stores)) + '.',
          'Definition gen_tree_mut_calls : list N := ' + coq_chars(''.join(chr(x) for x in muts)) + '.', '']
+    root_test = inner.pop('root_test')
     side = {'templates': {k: [list(p) for p in v] for k, v in {**braces, **inner}.items()},
+            'root_test': root_test, 'parse_sites': psites,
             'export_yields': [[ln, [list(p) for p in ps]] for ln, ps in yields],
             'escapes': esc['table'], 'escape_re_excluded': esc['excl'],
             'escape_multiline_re_excluded': esc.get('excl_multi'),
